@@ -140,7 +140,16 @@ def check_set_reading(prop: str, res: Result, repo: Repo):
     w = [c for c in calls_in(sr.node) if call_name(c) == "_set_reading"]
     sr_params = [a.arg for a in sr.node.args.args if a.arg != "self"]
     st0 = repo.method("hexital.core.indicator", "Indicator", "_set_reading")
-    if w and sr_params and [ast.unparse(arg_of(w[0], st0, k)) if arg_of(w[0], st0, k) is not None else "?" for k in (0, 1)] == [sr_params[0], "self._active_index"]:
+    _ldefs = {}
+    for n_ in ast.walk(sr.node):
+        if isinstance(n_, ast.Assign) and len(n_.targets) == 1 and isinstance(n_.targets[0], ast.Name):
+            _ldefs.setdefault(n_.targets[0].id, []).append(ast.unparse(n_.value))
+
+    def _arg_txt(e):
+        t = ast.unparse(e) if e is not None else "?"
+        return _ldefs[t][0] if isinstance(e, ast.Name) and len(_ldefs.get(t, ())) == 1 and t not in sr_params else t
+
+    if w and sr_params and [_arg_txt(arg_of(w[0], st0, k)) for k in (0, 1)] == [sr_params[0], "self._active_index"]:
         res.ok(RULE, {"helper": "Managed.set_reading", "writes": "at the managed cursor (_active_index)"})
     else:
         res.fail(RULE, finding(prop, RULE, sr, sr.node, "Managed.set_reading must store at self._active_index", construct="set_reading: target index"))
@@ -169,13 +178,16 @@ def check_set_reading(prop: str, res: Result, repo: Repo):
 
     ok_sr = False
     want_sub, want_top = f"self.candles[{ix_p}].sub_indicators", f"self.candles[{ix_p}].indicators"
+    # the index may be defaulted in place (`index = index if index else self._active_index`, as pinned) or inside the subscript
+    _inl = f"{ix_p} if {ix_p} else self._active_index"
+    _norm_ix = lambda t: t.replace(f"self.candles[{_inl}]", f"self.candles[{ix_p}]")
     # (a) statement form: if self._sub_indicator: <sub store> else: <top store>
     for n in ast.walk(st.node):
         if isinstance(n, ast.If):
             tst, then, other = canon_if(n)
             if ast.unparse(tst) == "self._sub_indicator":
                 def stores(stmts):
-                    return [resolved(t.value) for x in stmts for s_ in ast.walk(x) if isinstance(s_, ast.Assign) for t in s_.targets if isinstance(t, ast.Subscript) and ast.unparse(t.slice) == "self.name" and ast.unparse(s_.value) == rd_p]
+                    return [_norm_ix(resolved(t.value)) for x in stmts for s_ in ast.walk(x) if isinstance(s_, ast.Assign) for t in s_.targets if isinstance(t, ast.Subscript) and ast.unparse(t.slice) == "self.name" and ast.unparse(s_.value) == rd_p]
                 ok_sr = ok_sr or (stores(then) == [want_sub] and stores(other) == [want_top])
     # (b) expression form: <sub dict> if self._sub_indicator else <top dict>, then one store into it
     for n in ast.walk(st.node):
@@ -187,7 +199,7 @@ def check_set_reading(prop: str, res: Result, repo: Repo):
                     base = _Res().visit(_c.deepcopy(t.value))
                     if isinstance(base, ast.IfExp):
                         c, a, b = canon_ifexp(base)
-                        ok_sr = ok_sr or (c == "self._sub_indicator" and a == want_sub and b == want_top)
+                        ok_sr = ok_sr or (c == "self._sub_indicator" and _norm_ix(a) == want_sub and _norm_ix(b) == want_top)
     # (c) path form: on every path the one store under self.name goes to the dict the `_sub_indicator` test on that path selects
     #     (the dict may be held in a local first)
     if not ok_sr:
@@ -216,7 +228,7 @@ def check_set_reading(prop: str, res: Result, repo: Repo):
                 elif isinstance(item, ast.Assign):
                     for t in item.targets:
                         if isinstance(t, ast.Subscript) and ast.unparse(t.slice) == "self.name" and ast.unparse(item.value) == rd_p:
-                            got.append(ast.unparse(_Sub1(env).visit(_c.deepcopy(t.value))))
+                            got.append(_norm_ix(ast.unparse(_Sub1(env).visit(_c.deepcopy(t.value)))))
                         elif isinstance(t, ast.Name) and t.id not in (rd_p,):
                             env[t.id] = _Sub1(env).visit(_c.deepcopy(item.value))
             verdicts.append(pol is not None and got == [want_sub if pol else want_top])
